@@ -73,6 +73,16 @@ check('C13', 'model_checking',
       'TLA+ contract + TLC-generated cases replayed into query_traversal, recorded runs judged by TLC',
       'DESIGN.md 2.8, 5/C13')
 
+check('C04', 'model_checking',
+      'Lexeme.tla states what string literals (4 quoting styles) and identifier paths denote as scanner automata; '
+      'LexemeMC proves the reference reads back every body of up to 3 (thorough 4) units and every path of up to 3 '
+      'parts and emits the cases; each (text, value) is parsed by the three dialects in several positions and the '
+      'tree must hold the denoted value; each value / part list is printed by the real encoders and the printed '
+      'characters are judged by TLC with the scanner (LexemeTrace). Listed findings are pinned per failing input.',
+      'Alphabet of character classes, bounded length; decimals compared as floats; numbers checked by a Python list.',
+      'TLA+ scanner automata as independent oracle, TLC-enumerated cases replayed, TLC-judged encoder output',
+      'DESIGN.md 2.4, 5/C04')
+
 ALL = ['C%02d' % i for i in range(1, 21)]
 
 
